@@ -679,7 +679,7 @@ def c19(tier):
                     obs.append(bfs_ob("C19", und, n, alg, optional_reach=[""]))
     if tier == "thorough":
         defs = {"N": 9, "NM": 9, "DUP": 1, "VH_LC": 2, "UND": 0, "ALG": 1, "FAMILY": 1, "VERIF_VEC_CAP": 9, "VERIF_LIST_CAP": 3, "VERIF_LIST_FRONT": 0, "VERIF_KEY_MAX": 1, "VERIF_QUEUE_CAP": 40, "VERIF_SET_CAP": 2, "VERIF_MAP_CAP": 2}
-        obs.append({"id": "C19/dir/layered-1-2-2-2-2/findAllVertexPredecessors", "src": "bfs.cpp", "defs": defs, "bounds": "findAllVertexPredecessors&#0=42,findAllVertexPredecessors&#1=4,harness=11,vector=11,resize=11,default=6", "timeout": 3400, "mem_gb": 20, "optional_reach": [""], "no_validate": False})
+        obs.append({"id": "C19/dir/layered-1-2-2-2-2/findAllVertexPredecessors", "src": "bfs.cpp", "defs": defs, "bounds": "findAllVertexPredecessors&#0=42,findAllVertexPredecessors&#1=4,harness=11,vector=11,resize=11,default=6", "timeout": 3400, "mem_gb": 20, "cap_exempt": True, "optional_reach": [""], "no_validate": False})
     return obs
 
 
